@@ -109,9 +109,15 @@ class StateScenario(Scenario):
             if erng.random() < 0.25:
                 sd["root"]["env"] = erng.choice([True, "APP"])
             elif erng.random() < 0.2:
-                for i, node in enumerate(values.all_leaf_nodes(sd)):
-                    if node["kind"] not in ("virtual", "method") and erng.random() < 0.4:
-                        node.setdefault("o", {})["env"] = erng.choice([True, "SIMVAR_%d" % i])
+                def plain_leaves(node):      # nested schemas only (config types and item schemas are shared objects)
+                    for f in node["fields"]:
+                        if f["kind"] == "schema":
+                            yield from plain_leaves(f)
+                        elif f["kind"] not in ("virtual", "method", "configtype"):
+                            yield f
+                for i, node in enumerate(plain_leaves(sd["root"])):
+                    if erng.random() < 0.4:
+                        node.setdefault("o", {})["env"] = "SIMVAR_%d" % i
         if self.prop == "C06":
             # item schemas / config types that can reject an item *as a whole* although each of its values is acceptable:
             # a schema validator that refuses the integer 13, or a required field without a default
@@ -124,8 +130,14 @@ class StateScenario(Scenario):
                     node["validators"] = ["pred"]
                 elif irng.random() < 0.4 and "rq" not in {f["key"] for f in node["fields"]}:
                     node["fields"].append({"kind": "string", "key": "rq", "o": {"required": True}})
+        env = {}
+        if self.prop == "C06" and stream(seed, "c06-env").random() < 0.6:
+            # C06 is conditional on the operation raising, so the variables may as well be set: bound fields then start from
+            # their variables and loads leave them alone
+            from .environment import valid_env
+            env = valid_env(sd, stream(seed, "c06-env-values"), ctx, 0.6)
         p_inv = {"C01": 0.35, "C06": 0.6, "C12": 0.3, "C15": 0.7}.get(self.prop, 0.4)
-        return {"sd": sd, "ncfg": rng.choice([1, 1, 2]), "weights": self.weights(rng),
+        return {"env": env, "sd": sd, "ncfg": rng.choice([1, 1, 2]), "weights": self.weights(rng),
                 "p_invalid": rng.choice([p_inv, p_inv, 0.15]), "p_fault": rng.choice([0.0, 0.1, 0.3]),
                 "max_ops": rng.randint(5, self.max_ops), "avoid": sorted(avoid)}
 
@@ -137,6 +149,7 @@ class StateScenario(Scenario):
         st.sd = header["sd"]
         values.seed_world(world)
         st.ctx = values.Ctx(world)
+        world.env.update(header.get("env") or {})
         st.B = schema.build(st.sd)
         st.serials = snapshot.Serials()
         st.cfgs = []
@@ -400,18 +413,20 @@ class StateScenario(Scenario):
                                                                                "hostname", "url", "loglevel", "appmode", "secure")]
         if not scal:
             return None
-        argv = []
+        argv, paths = [], []
         for t in rng.sample(scal, min(len(scal), rng.randint(1, 3))):
             opt = "--" + t.path.replace(".", "-").replace("_", "-").lower()
             if t.node["kind"] == "bool":
                 argv.append(opt if rng.random() < 0.5 else "--no-" + opt[2:])
+                paths.append(t.path)
                 continue
             v = values.gen_value(rng, t.node, self._want(st, rng), st.ctx)
             sv = v if isinstance(v, str) else repr(v) if isinstance(v, (int, float)) and not isinstance(v, bool) else None
             if sv is None or sv.startswith("-") or sv == "":
                 continue
             argv += [opt, sv]
-        return {"op": "cmdline", "argv": argv}
+            paths.append(t.path)
+        return {"op": "cmdline", "argv": argv, "paths": paths}
 
     def do_cmdline(self, st, cfg, c, op, rec):
         from cincoconfig.support import cmdline_args_override, generate_argparse_parser
@@ -427,10 +442,20 @@ class StateScenario(Scenario):
         except SystemExit:
             rec.log("cmdline", "usage")
             return
+        s0 = snapshot.snap(cfg, st.serials)
         _, err = self._call(lambda: cmdline_args_override(cfg, ns))
         rec.log("cmdline", op["argv"], type(err).__name__ if err else "ok")
         rec.kind("ok" if err is None else "rej")
         rec.probe("cmdline-override:" + ("applied" if err is None else "rejected"))
+        if err is None and self.prop == "C01" and "paths" in op:
+            # an override is an assignment of the supplied options: it changes no other field
+            rec.check()
+            a, b = s0, snapshot.snap(cfg, st.serials)
+            for p in op["paths"]:
+                a, b = snapshot.strip_under(a, p), snapshot.strip_under(b, p)
+            if a != b:
+                d = snapshot.diff(a, b)
+                rec.fail("C01/frame", "C01/other-field-changed/cmdline", "a command-line override of %r also changed %s: %r -> %r" % (op["paths"], d[0], d[1], d[2]))
 
     def gen_render(self, st, rng, cfg, tgts, cfgpaths, owners):
         return {"op": "render", "how": rng.choice(["to_tree", "to_tree_virtual", "dumps_json", "dumps_pickle", "asdict", "validate"])}
@@ -503,7 +528,7 @@ class StateScenario(Scenario):
             doc = ops.write_doc("xml", tree if ops.in_format_domain("xml", tree) else {}, {"root_tag": "other"})
         elif how == "empty":
             doc = b""
-        return {"op": "loads_bad", "fmt": fmt, "opts": opts, "doc": doc.hex(), "how": how}
+        return {"op": "loads_bad", "fmt": fmt, "opts": opts, "doc": doc.hex(), "how": how, "via_file": rng.random() < 0.5}
 
     def gen_load_bad(self, st, rng, cfg, tgts, cfgpaths, owners):
         fmt = rng.choice(ops.FORMATS)
@@ -641,7 +666,9 @@ class StateScenario(Scenario):
     def gen_dyn(self, st, rng, cfg, tgts, cfgpaths, owners):
         choices = [""] + [p for p, c in cfgpaths]
         p = rng.choice(choices)
-        return {"op": "dyn", "path": p, "key": "dyn%d" % rng.randint(1, 3), "v": enc(rng.choice([1, "s", [1, [2]], {"a": {"b": 1}}, None, 2.5]))}
+        key = rng.choice(["dyn1", "dyn2", "dyn3", "dyn1", "dyn2", "_tok", "a.b", "x-y"])      # any string is a legal undeclared key
+        return {"op": "dyn", "path": p, "key": key, "via": rng.choice(["attr", "item"]) if "." not in key else "attr",
+                "v": enc(rng.choice([1, "s", [1, [2]], {"a": {"b": 1}}, None, 2.5]))}
 
     # =========================================================================== lookup helpers
     def node_for(self, st, cfg, path):
@@ -1149,9 +1176,15 @@ class StateScenario(Scenario):
         doc = bytes.fromhex(op["doc"])
         fmt, opts = op["fmt"], op.get("opts", {})
         parses = ops.doc_parses(fmt, doc, opts)
+        via_file = bool(op.get("via_file")) and not opts
+        if via_file:
+            st.world.poke("/data/bad-doc." + fmt, doc)      # the same malformed document, read from a file
         s0 = snapshot.snap(cfg, st.serials)
-        _, err = self._call(lambda: cfg.loads(doc, fmt, **opts))
-        rec.log("loads_bad", fmt, op.get("how"), parses, type(err).__name__ if err else "ok")
+        if via_file:
+            _, err = self._call(lambda: cfg.load("/data/bad-doc." + fmt, fmt))
+        else:
+            _, err = self._call(lambda: cfg.loads(doc, fmt, **opts))
+        rec.log("loads_bad", fmt, op.get("how"), parses, "file" if via_file else "bytes", type(err).__name__ if err else "ok")
         rec.kind(fmt + ":" + str(op.get("how")) + (":ok" if err is None else ":rej"))
         if parses:
             rec.probe("torn-doc-still-parses")
@@ -1315,19 +1348,39 @@ class StateScenario(Scenario):
         key = op["key"]
         full = (path + "." if path else "") + key
         s0 = snapshot.snap(cfg, st.serials)
-        _, err = self._call(lambda: setattr(owner, key, v))
+        plain_key = key.isidentifier() and not key.startswith("_")
+
+        def look():
+            """What reading the key itself shows: (value or exception class) by item access, and membership."""
+            out = []
+            for fn in (lambda: owner[key], lambda: key in owner):
+                r, e = self._call(fn)
+                out.append(type(e).__name__ if e is not None else canon(r))
+            return out
+        seen0 = look()
+        if op.get("via") == "item":
+            _, err = self._call(lambda: owner.__setitem__(key, v))
+        else:
+            _, err = self._call(lambda: setattr(owner, key, v))
         rec.log("dyn", full, type(err).__name__ if err else "ok")
         rec.kind("ok" if err is None else "rej")
         if err is None:
-            rec.probe("dynamic-field-set")
-            if self.prop == "C01":
+            rec.probe("dynamic-field-set" + ("" if plain_key else ":odd-key"))
+            if self.prop == "C01" and plain_key:
                 rec.check()
                 got = getattr(owner, key)
                 if canon(got) != canon(v):
                     rec.fail("C01/readback", "C01/readback-not-normalised/dyn/any", "dynamic %s = %r reads back %r" % (full, canon(v), canon(got)))
-            self.check_frame(st, rec, s0, cfg, full, "dyn", "any")
+            if plain_key:
+                self.check_frame(st, rec, s0, cfg, full, "dyn", "any")
         else:
             self.check_unchanged(st, rec, s0, cfg, "set-attr", "undeclared-key")
+            if self.prop == "C06":
+                rec.check()
+                seen1 = look()
+                if seen1 != seen0:
+                    rec.fail("C06/unchanged", "C06/changed-by-rejected/set-%s/undeclared-key-readback" % op.get("via", "attr"),
+                             "after the rejected assignment reading %s shows %r, before it showed %r" % (full, seen1, seen0))
 
     # ---- typed list operations
     def _item_value(self, st, node, path, spec):
@@ -1403,6 +1456,26 @@ class StateScenario(Scenario):
             return
         rec.log("lop", path, name, type(err).__name__ if err else "ok")
         rec.kind(name + (":ok" if err is None else ":rej"))
+        if self.prop == "C15" and err is not None and schema.is_cfg_node(item) and name in ("append", "extend", "iadd") and not op.get("faults"):
+            # a value rejected inside a configuration that is being added to a list of configurations: the error names
+            # the item by the index it would get (the list grows as the new items are taken one by one)
+            specs = [op["v"]] if name == "append" else list(op.get("vs", []))
+            inode = schema.sub_schema_node(st.sd, item)
+            found, open_ = [], False
+            for k, sp in enumerate(specs):
+                if "$tree" not in sp or sp.get("as_config"):
+                    open_ = True          # ready-made objects and non-maps: which error comes first is not modelled
+                    break
+                r, u = self.judge_tree(st, inode, dec(sp["$tree"]), "%s[%d]." % (path, n + k), fresh_top=True)
+                found += r
+                open_ = open_ or u
+                if r:
+                    break
+            # (in-place list operations are not among the routes whose exception type C15 fixes; when the rejection does
+            # come as a validation error, the field it names must be the right one)
+            if len(found) == 1 and not open_ and isinstance(err, ValidationError):
+                self.check_rejection(st, rec, err, found[0][0], found[0][1], route)
+                rec.probe("list-insertion-rejected:path-checked:" + name)
         if name in SINGLE_LIST_OPS:
             rec.relevant += 1
             if err is not None:
